@@ -45,7 +45,8 @@ const (
 	OpEvalSymlinks
 	OpReadlink
 	OpProcKill
-	OpPoll // a blocking channel operation found its channel not ready: park until another task made progress
+	OpPipeOpen // a pipe to a process that is about to be started: descriptors are a bounded resource
+	OpPoll     // a blocking channel operation found its channel not ready: park until another task made progress
 	opMax
 )
 
@@ -57,7 +58,7 @@ var opNames = [...]string{
 	OpNumCPU: "numcpu", OpNow: "now", OpSleep: "sleep", OpLookPath: "lookpath",
 	OpProcStart: "procstart", OpProcStdin: "procstdin", OpProcWait: "procwait",
 	OpNote: "note", OpBlockForever: "blockforever", OpEvalSymlinks: "evalsymlinks", OpReadlink: "readlink",
-	OpPoll: "chanwait", OpProcKill: "prockill",
+	OpPoll: "chanwait", OpProcKill: "prockill", OpPipeOpen: "pipeopen",
 }
 
 func (o Op) String() string {
@@ -190,16 +191,17 @@ var Latencies = []time.Duration{0, time.Millisecond, 10 * time.Millisecond, time
 // Result is what a simulated run produced, apart from the values the root
 // function itself returned to the harness.
 type Result struct {
-	Steps       int
-	TraceHash   uint64
-	Trace       []string
-	Deadlock    string
-	Panic       *PanicInfo
-	Budget      bool
-	Tasks       int
-	MaxRunnable int // most tasks simultaneously runnable at a scheduling point
-	SchedPoints int // scheduling points with >= 2 alternatives
-	Switches    int // scheduling points where a non-default alternative was taken
+	Steps        int
+	TraceHash    uint64
+	Trace        []string
+	Deadlock     string
+	Panic        *PanicInfo
+	Budget       bool
+	Tasks        int
+	MaxOpenPipes int // most stdin pipes open at once
+	MaxRunnable  int // most tasks simultaneously runnable at a scheduling point
+	SchedPoints  int // scheduling points with >= 2 alternatives
+	Switches     int // scheduling points where a non-default alternative was taken
 
 	RootReturned      bool
 	LiveAtRootReturn  int // tasks other than root not yet finished when root returned
